@@ -75,9 +75,9 @@ class QfixedImp(float, Qtype):
         return cls(integer_value + fractional_value)
 
     def to_bool(self) -> List[bool]:
-        integer_part = bin_to_bool_list(
-            bin(int(self.value))[::-1], self.BIT_SIZE_INTEGER
-        )
+        integer_part = [
+            (int(self.value) >> i) & 1 == 1 for i in range(self.BIT_SIZE_INTEGER)
+        ]
 
         fractional_part = []
         c_val = self.value
